@@ -49,8 +49,10 @@ def collect(ctx: Ctx, n: int, tagp: str):
     progs = (fixed + [PL.prov_expr(ctx.rng, ctx.rng.randint(2, 4)) for _ in range(n)]
              + [PL.dup_call_program(ctx.rng) for _ in range(max(12, n // 3))])
     for i, e in enumerate(progs):
-        out, nodes, flags, tree = PL.run_and_read(ctx, e, f"{tagp}{i}", ctx.rng)
-        cases.append({"id": i + 1, "e": e, "obs": nodes, "flags": flags, "out": out, "tree": tree})
+        # every third program is evaluated from a deserialised expression (as a cached result expression is)
+        out, nodes, flags, tree = PL.run_and_read(ctx, e, f"{tagp}{i}", ctx.rng, thaw=(i % 3 == 2))
+        cases.append({"id": i + 1, "e": e, "obs": nodes, "flags": flags, "out": out, "tree": tree,
+                      "thawed": i % 3 == 2})
     return cases
 
 
